@@ -24,6 +24,13 @@ CASES = [
     ("tensordot(axes=1) CC", "lambda anp, x, y: anp.tensordot(x, y, 1)", [((2, 3), "C"), ((3, 2), "C")], (0, 1)),
     ("tensordot(axes pairs) RC", "lambda anp, x, y: anp.tensordot(x, y, axes=([0, 1], [1, 0]))", [((2, 3), "R"), ((3, 2, 2), "C")], (0, 1)),
     ("dot CC", "lambda anp, x, y: anp.dot(x, y)", [((2, 3), "C"), ((3,), "C")], (0, 1)),
+    ("concatenate CR axis0", "lambda anp, x, y: anp.concatenate([x, y])", [((2,), "C"), ((3,), "R")], (0, 1)),
+    ("hstack RC", "lambda anp, x, y: anp.hstack([x, y])", [((2,), "R"), ((3,), "C")], (0, 1)),
+    ("vstack RC", "lambda anp, x, y: anp.vstack([x, y])", [((2,), "R"), ((2,), "C")], (0, 1)),
+    ("append RC", "lambda anp, x, y: anp.append(x, y)", [((2,), "R"), ((3,), "C")], (0, 1)),
+    ("stack RC", "lambda anp, x, y: anp.stack([x, y])", [((2,), "R"), ((2,), "C")], (0, 1)),
+    ("array RC", "lambda anp, x, y: anp.array([x, y])", [((2,), "R"), ((2,), "C")], (0, 1)),
+    ("where RC", "lambda anp, x, y: anp.where(__import__('numpy').array([True, False, True]), x, y)", [((3,), "R"), ((3,), "C")], (0, 1)),
     ("dot CR", "lambda anp, x, y: anp.dot(x, y)", [((2, 3), "C"), ((3, 2), "R")], (0, 1)),
     ("dot RC 2-D", "lambda anp, x, y: anp.dot(x, y)", [((2, 3), "R"), ((3, 2), "C")], (0, 1)),
     ("dot RC 1-D", "lambda anp, x, y: anp.dot(x, y)", [((3,), "R"), ((3,), "C")], (0, 1)),
@@ -223,6 +230,166 @@ _S("stats.multivariate_normal.logpdf x", "sp.stats.multivariate_normal.logpdf(x,
 _S("stats.multivariate_normal.logpdf mean/cov", "sp.stats.multivariate_normal.logpdf(__import__('numpy').array([0.3, -0.2]), x, anp.dot(y, y.T) + anp.eye(2))", [((2,), "R"), ((2, 2), "R")], (0, 1))
 _S("stats.multivariate_normal.entropy", "sp.stats.multivariate_normal.entropy(__import__('numpy').zeros(2), anp.dot(x, x.T) + anp.eye(2))", [((2, 2), "R")])
 _S("stats.dirichlet.logpdf", "sp.stats.dirichlet.logpdf(__import__('numpy').array([0.2, 0.3, 0.5]), x)", [((3,), "P")])
+
+# ---- OPTION COVERAGE: keyword/positional options NumPy accepts for functions that have rules.  Where autograd does not support the option it
+# must raise (recorded as N-*-raises); a rule that starts accepting an option must be right for it.
+_np = "__import__('numpy')"
+CASES += [
+    ("trace offset", "lambda anp, x: anp.trace(x, offset=1)", [((3, 4), "R")], (0,)),
+    ("trace offset<0", "lambda anp, x: anp.trace(x, offset=-1)", [((3, 4), "R")], (0,)),
+    ("trace axis1/axis2", "lambda anp, x: anp.trace(x, axis1=1, axis2=2)", [((2, 3, 3), "R")], (0,)),
+    ("trace offset axis1>axis2", "lambda anp, x: anp.trace(x, offset=1, axis1=1, axis2=0)", [((3, 4), "R")], (0,)),
+    ("trace offset=-1 axis1>axis2 3-D", "lambda anp, x: anp.trace(x, offset=-1, axis1=2, axis2=0)", [((3, 2, 4), "R")], (0,)),
+    ("trace method axes", "lambda anp, x: x.trace(1, 1, 0) if hasattr(x, 'trace') else None", [((3, 4), "R")], (0,)),
+    ("cholesky upper", "lambda anp, x: anp.linalg.cholesky(anp.dot(x, x.T) + 4 * anp.eye(3), upper=True)", [((3, 3), "R")], (0,)),
+    ("cholesky complex", "lambda anp, x: anp.linalg.cholesky(anp.dot(x, anp.conj(x).T) + 4 * anp.eye(3))", [((3, 3), "C")], (0,)),
+    ("cholesky stacked", "lambda anp, x: anp.linalg.cholesky(anp.matmul(x, anp.swapaxes(x, -1, -2)) + 4 * anp.eye(2))", [((2, 2, 2), "R")], (0,)),
+    ("eigh UPLO=U vals", "lambda anp, x: anp.linalg.eigh(x + x.T, UPLO='U')[0]", [((3, 3), "R")], (0,)),
+    ("eigh UPLO=U complex vals", "lambda anp, x: anp.linalg.eigh(x + anp.conj(x).T, 'U')[0]", [((3, 3), "C")], (0,)),
+    ("eigh complex vals only", "lambda anp, x: anp.linalg.eigh(x + anp.conj(x).T)[0]", [((3, 3), "C")], (0,)),
+    ("eigh complex weighted vals", "lambda anp, x: anp.sum(anp.linalg.eigh(x + anp.conj(x).T)[0] * " + _np + ".array([1.0, -2.0, 0.5]))", [((3, 3), "C")], (0,)),
+    ("eigvalsh", "lambda anp, x: anp.linalg.eigvalsh(x + x.T)", [((3, 3), "R")], (0,)),
+    ("norm keepdims", "lambda anp, x: anp.linalg.norm(x, axis=1, keepdims=True)", [((2, 3), "R")], (0,)),
+    ("norm ord=inf", "lambda anp, x: anp.linalg.norm(x, ord=" + _np + ".inf)", [((4,), "R")], (0,)),
+    ("norm ord=1 vec", "lambda anp, x: anp.linalg.norm(x, ord=1)", [((4,), "R")], (0,)),
+    ("norm ord=3 axis", "lambda anp, x: anp.linalg.norm(x, ord=3, axis=0)", [((3, 2), "R")], (0,)),
+    ("norm ord=1 matrix", "lambda anp, x: anp.linalg.norm(x, ord=1)", [((3, 2), "R")], (0,)),
+    ("norm ord=-2 matrix", "lambda anp, x: anp.linalg.norm(x, ord=-2)", [((3, 2), "R")], (0,)),
+    ("pinv rcond", "lambda anp, x: anp.linalg.pinv(x, rcond=1e-10)", [((3, 2), "R")], (0,)),
+    ("pinv hermitian", "lambda anp, x: anp.linalg.pinv(x + x.T, hermitian=True)", [((3, 3), "R")], (0,)),
+    ("svd hermitian", "lambda anp, x: anp.linalg.svd(x + x.T, hermitian=True, compute_uv=False)", [((3, 3), "R")], (0,)),
+    ("svd full_matrices=True vals", "lambda anp, x: anp.linalg.svd(x, full_matrices=True)[1]", [((3, 2), "R")], (0,)),
+    ("inv stacked", "lambda anp, x: anp.linalg.inv(x + 3 * anp.eye(2))", [((2, 2, 2), "R")], (0,)),
+    ("det stacked", "lambda anp, x: anp.linalg.det(x)", [((2, 2, 2), "R")], (0,)),
+    ("slogdet", "lambda anp, x: anp.linalg.slogdet(x + 3 * anp.eye(3))[1]", [((3, 3), "R")], (0,)),
+    ("solve vector rhs", "lambda anp, x, y: anp.linalg.solve(x + 3 * anp.eye(3), y)", [((3, 3), "R"), ((3,), "R")], (0, 1)),
+    ("solve stacked", "lambda anp, x, y: anp.linalg.solve(x + 3 * anp.eye(2), y)", [((2, 2, 2), "R"), ((2, 2, 1), "R")], (0, 1)),
+    ("matrix_power 3", "lambda anp, x: anp.linalg.matrix_power(x, 3)", [((2, 2), "R")], (0,)),
+    ("matrix_power -1", "lambda anp, x: anp.linalg.matrix_power(x + 3 * anp.eye(2), -1)", [((2, 2), "R")], (0,)),
+    ("angle deg", "lambda anp, x: anp.angle(x, deg=True)", [((3,), "C")], (0,)),
+    ("array_split", "lambda anp, x: anp.array_split(x, 3)[1]", [((5,), "R")], (0,)),
+    ("array_split axis", "lambda anp, x: anp.array_split(x, [1, 2], axis=1)[2]", [((2, 4), "R")], (0,)),
+    ("split sections", "lambda anp, x: anp.split(x, 2, axis=1)[1]", [((2, 4), "R")], (0,)),
+    ("hsplit", "lambda anp, x: anp.hsplit(x, [1])[1]", [((2, 3), "R")], (0,)),
+    ("vsplit", "lambda anp, x: anp.vsplit(x, 2)[0]", [((4, 2), "R")], (0,)),
+    ("dsplit", "lambda anp, x: anp.dsplit(x, 2)[1]", [((2, 1, 4), "R")], (0,)),
+    ("cross axisa/axisb", "lambda anp, x, y: anp.cross(x, y, axisa=0, axisb=0)", [((3, 2), "R"), ((3, 2), "R")], (0, 1)),
+    ("cross axisc", "lambda anp, x, y: anp.cross(x, y, axisc=0)", [((2, 3), "R"), ((2, 3), "R")], (0, 1)),
+    ("cross axis", "lambda anp, x, y: anp.cross(x, y, axis=0)", [((3, 2), "R"), ((3, 2), "R")], (0, 1)),
+    ("diag k=1 build", "lambda anp, x: anp.diag(x, k=1)", [((3,), "R")], (0,)),
+    ("diag k=-1 extract", "lambda anp, x: anp.diag(x, k=-1)", [((3, 3), "R")], (0,)),
+    ("diagonal offset axes", "lambda anp, x: anp.diagonal(x, offset=1, axis1=2, axis2=0)", [((3, 2, 4), "R")], (0,)),
+    ("diff prepend", "lambda anp, x: anp.diff(x, prepend=0.5)", [((4,), "R")], (0,)),
+    ("diff append", "lambda anp, x, y: anp.diff(x, append=y)", [((4,), "R"), ((2,), "R")], (0,)),   # only x: a differentiated value passed BY KEYWORD is outside the properties (C15: positional)
+    ("gradient spacing scalar", "lambda anp, x: anp.gradient(x, 0.5)", [((5,), "R")], (0,)),
+    ("gradient spacing coords", "lambda anp, x: anp.gradient(x, " + _np + ".array([0.0, 0.5, 1.5, 2.0, 4.0]))", [((5,), "R")], (0,)),
+    ("gradient edge_order", "lambda anp, x: anp.gradient(x, edge_order=2)", [((5,), "R")], (0,)),
+    ("gradient axis tuple", "lambda anp, x: anp.gradient(x, axis=(0, 1))[1]", [((3, 4), "R")], (0,)),
+    ("linspace retstep", "lambda anp, x, y: anp.linspace(x, y, 5, retstep=True)[0]", [((), "R"), ((), "R")], (0, 1)),
+    ("linspace endpoint=False", "lambda anp, x, y: anp.linspace(x, y, 4, endpoint=False)", [((), "R"), ((), "R")], (0, 1)),
+    ("linspace array axis", "lambda anp, x, y: anp.linspace(x, y, 3, axis=1)", [((2,), "R"), ((2,), "R")], (0, 1)),
+    ("matmul axes", "lambda anp, x, y: anp.matmul(x, y, axes=[(0, 1), (0, 1), (0, 1)])", [((2, 3), "R"), ((3, 2), "R")], (0, 1)),
+    ("nan_to_num finite", "lambda anp, x: anp.nan_to_num(x, nan=1.0, posinf=2.0)", [((3,), "R")], (0,)),
+    ("partition kth", "lambda anp, x: anp.partition(x, 2)", [((5,), "R")], (0,)),
+    ("partition axis", "lambda anp, x: anp.partition(x, 1, axis=0)", [((3, 2), "R")], (0,)),
+    ("sort stable", "lambda anp, x: anp.sort(x, kind='stable')", [((5,), "R")], (0,)),
+    ("sort axis=None", "lambda anp, x: anp.sort(x, axis=None)", [((2, 3), "R")], (0,)),
+    ("sort axis=0", "lambda anp, x: anp.sort(x, axis=0)", [((3, 2), "R")], (0,)),
+    ("msort-like method", "lambda anp, x: anp.sort(x)[::-1]", [((4,), "R")], (0,)),
+    ("prod initial", "lambda anp, x: anp.prod(x, initial=2.0)", [((3,), "P")], (0,)),
+    ("sum initial", "lambda anp, x: anp.sum(x, axis=0, initial=1.5)", [((2, 3), "R")], (0,)),
+    ("sum where", "lambda anp, x: anp.sum(x, where=" + _np + ".array([True, False, True]))", [((2, 3), "R")], (0,)),
+    ("mean where", "lambda anp, x: anp.mean(x, where=" + _np + ".array([True, False, True]))", [((2, 3), "R")], (0,)),
+    ("max initial", "lambda anp, x: anp.max(x, initial=100.0)", [((4,), "R")], (0,)),
+    ("min where initial", "lambda anp, x: anp.min(x, where=" + _np + ".array([True, True, False, True]), initial=50.0)", [((4,), "R")], (0,)),
+    ("std correction", "lambda anp, x: anp.std(x, correction=1)", [((5,), "R")], (0,)),
+    ("var correction axis", "lambda anp, x: anp.var(x, axis=1, correction=1)", [((2, 4), "R")], (0,)),
+    ("var mean=", "lambda anp, x: anp.var(x, mean=0.25)", [((5,), "R")], (0,)),
+    ("var ddof keepdims tuple axis", "lambda anp, x: anp.var(x, axis=(0, 2), ddof=1, keepdims=True)", [((2, 3, 2), "R")], (0,)),
+    ("std tuple axis negative", "lambda anp, x: anp.std(x, axis=(-1, 0))", [((2, 3, 2), "R")], (0,)),
+    ("std tuple axis non-adjacent", "lambda anp, x: anp.std(x, axis=(0, 2))", [((2, 3, 4), "R")], (0,)),
+    ("var complex", "lambda anp, x: anp.var(x, axis=0)", [((3, 2), "C")], (0,)),
+    ("std complex", "lambda anp, x: anp.std(x)", [((4,), "C")], (0,)),
+    ("mean dtype", "lambda anp, x: anp.mean(x, dtype=" + _np + ".float64, axis=1)", [((2, 3), "R")], (0,)),
+    ("real_if_close tol", "lambda anp, x: anp.real_if_close(x, tol=1000)", [((3,), "R")], (0,)),
+    ("rot90 k=3 axes", "lambda anp, x: anp.rot90(x, k=3, axes=(1, 2))", [((2, 2, 3), "R")], (0,)),
+    ("rot90 k=-1", "lambda anp, x: anp.rot90(x, -1)", [((2, 3), "R")], (0,)),
+    ("roll tuple", "lambda anp, x: anp.roll(x, (1, -2), axis=(0, 1))", [((2, 3), "R")], (0,)),
+    ("roll flat", "lambda anp, x: anp.roll(x, 2)", [((2, 3), "R")], (0,)),
+    ("moveaxis sequences", "lambda anp, x: anp.moveaxis(x, [0, 1], [-1, -2])", [((2, 3, 4), "R")], (0,)),
+    ("swapaxes negative", "lambda anp, x: anp.swapaxes(x, -1, 0)", [((2, 3, 4), "R")], (0,)),
+    ("rollaxis start", "lambda anp, x: anp.rollaxis(x, 2, 1)", [((2, 3, 4), "R")], (0,)),
+    ("expand_dims tuple", "lambda anp, x: anp.expand_dims(x, (0, 2))", [((3,), "R")], (0,)),
+    ("squeeze tuple", "lambda anp, x: anp.squeeze(x, axis=(0, 2))", [((1, 3, 1), "R")], (0,)),
+    ("reshape F", "lambda anp, x: anp.reshape(x, (3, 2), order='F')", [((2, 3), "R")], (0,)),
+    ("ravel F", "lambda anp, x: anp.ravel(x, order='F')", [((2, 3), "R")], (0,)),
+    ("method reshape F", "lambda anp, x: x.reshape((3, 2), order='F')", [((2, 3), "R")], (0,)),
+    ("method flatten F", "lambda anp, x: x.flatten(order='F') if hasattr(x, 'flatten') else None", [((2, 3), "R")], (0,)),
+    ("reshape -1", "lambda anp, x: anp.reshape(x, (-1, 2))", [((2, 3), "R")], (0,)),
+    ("concatenate axis=None", "lambda anp, x, y: anp.concatenate([x, y], axis=None)", [((2, 2), "R"), ((3,), "R")], (0, 1)),
+    ("concatenate axis=-1", "lambda anp, x, y: anp.concatenate([x, y], axis=-1)", [((2, 2), "R"), ((2, 1), "R")], (0, 1)),
+    ("stack axis=-1", "lambda anp, x, y: anp.stack([x, y], axis=-1)", [((2, 3), "R"), ((2, 3), "R")], (0, 1)),
+    ("take mode=wrap", "lambda anp, x: anp.take(x, [0, 5, -1], mode='wrap')", [((4,), "R")], (0,)),
+    ("take axis", "lambda anp, x: anp.take(x, [1, 1, 0], axis=1)", [((2, 3), "R")], (0,)),
+    ("take_along_axis", "lambda anp, x: anp.take_along_axis(x, " + _np + ".array([[0, 2], [1, 1]]), axis=1)", [((2, 3), "R")], (0,)),
+    ("repeat array repeats", "lambda anp, x: anp.repeat(x, [1, 0, 2])", [((3,), "R")], (0,)),
+    ("repeat array repeats axis", "lambda anp, x: anp.repeat(x, [2, 1], axis=0)", [((2, 3), "R")], (0,)),
+    ("tile 0 reps", "lambda anp, x: anp.tile(x, (2, 0))", [((2, 3), "R")], (0,)),
+    ("pad edge", "lambda anp, x: anp.pad(x, 1, mode='edge')", [((3,), "R")], (0,)),
+    ("pad reflect", "lambda anp, x: anp.pad(x, (1, 2), mode='reflect')", [((4,), "R")], (0,)),
+    ("pad constant_values", "lambda anp, x: anp.pad(x, ((1, 0), (0, 2)), mode='constant', constant_values=3.0)", [((2, 2), "R")], (0,)),
+    ("clip min only", "lambda anp, x: anp.clip(x, 0.1, None)", [((5,), "R")], (0,)),
+    ("clip max only", "lambda anp, x: anp.clip(x, None, 0.6)", [((5,), "R")], (0,)),
+    ("clip array bounds", "lambda anp, x: anp.clip(x, " + _np + ".array([-1.0, 0.0, 0.1]), 1.0)", [((2, 3), "R")], (0,)),
+    ("clip keywords", "lambda anp, x: anp.clip(x, min=-0.1, max=0.9)", [((5,), "R")], (0,)),
+    ("tril k", "lambda anp, x: anp.tril(x, k=1)", [((3, 3), "R")], (0,)),
+    ("triu k 3-D", "lambda anp, x: anp.triu(x, k=-1)", [((2, 3, 3), "R")], (0,)),
+    ("cumsum axis=None", "lambda anp, x: anp.cumsum(x)", [((2, 3), "R")], (0,)),
+    ("cumsum negative axis", "lambda anp, x: anp.cumsum(x, axis=-2)", [((2, 3), "R")], (0,)),
+    ("cumprod", "lambda anp, x: anp.cumprod(x, axis=1)", [((2, 3), "P")], (0,)),
+    ("einsum optimize", "lambda anp, x, y: anp.einsum('ij,jk->ik', x, y, optimize=True)", [((2, 3), "R"), ((3, 2), "R")], (0, 1)),
+    ("einsum three operands", "lambda anp, x, y: anp.einsum('ij,jk,kl->il', x, y, x)", [((2, 2), "R"), ((2, 2), "R")], (0, 1)),
+    ("tensordot int axes 2", "lambda anp, x, y: anp.tensordot(x, y, 2)", [((2, 3, 2), "R"), ((3, 2, 2), "R")], (0, 1)),
+    ("kron 1-D 2-D", "lambda anp, x, y: anp.kron(x, y)", [((2,), "R"), ((2, 2), "R")], (0, 1)),
+    ("outer 0-d", "lambda anp, x, y: anp.outer(x, y)", [((), "R"), ((3,), "R")], (0, 1)),
+    ("fft2 norm", "lambda anp, x: anp.fft.fft2(x, norm='ortho')", [((2, 3), "R")], (0,)),
+    ("fftn norm forward", "lambda anp, x: anp.fft.fftn(x, norm='forward')", [((2, 2), "C")], (0,)),
+    ("ifft norm", "lambda anp, x: anp.fft.ifft(x, norm='ortho')", [((4,), "C")], (0,)),
+    ("ifft2 s", "lambda anp, x: anp.fft.ifft2(x, s=(3, 2))", [((2, 2), "C")], (0,)),
+    ("ifftn norm", "lambda anp, x: anp.fft.ifftn(x, norm='forward')", [((2, 2), "C")], (0,)),
+    ("irfft axis", "lambda anp, x: anp.fft.irfft(x, axis=0)", [((3, 2), "C")], (0,)),
+    ("irfft real spectrum", "lambda anp, x: anp.fft.irfft(x)", [((3,), "R")], (0,)),
+    ("irfft2 real spectrum", "lambda anp, x: anp.fft.irfft2(x)", [((2, 3), "R")], (0,)),
+    ("irfft2 axes norm", "lambda anp, x: anp.fft.irfft2(x, axes=(0, 1), norm='ortho')", [((2, 3), "C")], (0,)),
+    ("irfftn s axes", "lambda anp, x: anp.fft.irfftn(x, s=(2, 4), axes=(0, 1))", [((2, 3), "C")], (0,)),
+    ("irfftn real spectrum", "lambda anp, x: anp.fft.irfftn(x)", [((2, 3), "R")], (0,)),
+    ("rfft2 axes norm", "lambda anp, x: anp.fft.rfft2(x, axes=(1, 0), norm='ortho')", [((2, 4), "R")], (0,)),
+    ("rfftn norm", "lambda anp, x: anp.fft.rfftn(x, norm='forward')", [((2, 4), "R")], (0,)),
+    ("rfftn repeated axes", "lambda anp, x: anp.fft.rfftn(x, axes=(0, 0))", [((4, 2), "R")], (0,)),
+    ("fftshift axes", "lambda anp, x: anp.fft.fftshift(x, axes=1)", [((2, 3), "R")], (0,)),
+    ("ifftshift", "lambda anp, x: anp.fft.ifftshift(x)", [((5,), "C")], (0,)),
+    ("irfft(abs(rfft))", "lambda anp, x: anp.fft.irfft(anp.abs(anp.fft.rfft(x)))", [((6,), "R")], (0,)),
+    ("where float condition", "lambda anp, x, y: anp.where(" + _np + ".array([0.0, 0.5, 2.0]), x, y)", [((3,), "R"), ((3,), "R")], (0, 1)),
+    ("where int condition bcast", "lambda anp, x, y: anp.where(" + _np + ".array([[0], [3]]), x, y)", [((3,), "R"), ((2, 3), "R")], (0, 1)),
+    ("select default", "lambda anp, x, y: anp.select([" + _np + ".array([True, False, False]), " + _np + ".array([True, True, False])], [x, y], default=1.5)", [((3,), "R"), ((3,), "R")], (0, 1)),
+    ("maximum bcast scalar", "lambda anp, x, y: anp.maximum(x, y)", [((2, 3), "R"), ((), "R")], (0, 1)),
+    ("fmax", "lambda anp, x, y: anp.fmax(x, y)", [((3,), "R"), ((3,), "R")], (0, 1)),
+    ("fmin bcast", "lambda anp, x, y: anp.fmin(x, y)", [((2, 3), "R"), ((3,), "R")], (0, 1)),
+    ("logaddexp2", "lambda anp, x, y: anp.logaddexp2(x, y)", [((3,), "R"), ((3,), "R")], (0, 1)),
+    ("hypot bcast", "lambda anp, x, y: anp.hypot(x, y)", [((2, 3), "R"), ((1, 3), "R")], (0, 1)),
+    ("arctan2 bcast", "lambda anp, x, y: anp.arctan2(x, y)", [((2, 1), "R"), ((3,), "R")], (0, 1)),
+    ("remainder bcast", "lambda anp, x, y: anp.remainder(x, y)", [((2, 3), "R"), ((3,), "P")], (0, 1)),
+    ("mod scalar", "lambda anp, x, y: anp.mod(x, y)", [((3,), "R"), ((), "P")], (0, 1)),
+    ("power array exponents", "lambda anp, x, y: anp.power(x, y)", [((3,), "P"), ((3,), "R")], (0, 1)),
+    ("sinc", "lambda anp, x: anp.sinc(x)", [((4,), "R")], (0,)),
+    ("exp2 log2 log10 log1p expm1", "lambda anp, x: anp.exp2(x) + anp.log2(x) + anp.log10(x) + anp.log1p(x) + anp.expm1(x)", [((3,), "P")], (0,)),
+    ("deg2rad rad2deg degrees radians", "lambda anp, x: anp.deg2rad(x) + anp.rad2deg(x) + anp.degrees(x) * anp.radians(x)", [((3,), "R")], (0,)),
+    ("arc functions", "lambda anp, x: anp.arcsin(x / 4) + anp.arccos(x / 4) + anp.arctan(x) + anp.arcsinh(x) + anp.arctanh(x / 4) + anp.arccosh(x + 1.5)", [((3,), "P")], (0,)),
+    ("fabs absolute conjugate", "lambda anp, x: anp.fabs(x) + anp.absolute(x) * anp.conjugate(x)", [((4,), "R")], (0,)),
+    ("atleast_2d 3d", "lambda anp, x: anp.atleast_3d(anp.atleast_2d(x))", [((3,), "R")], (0,)),
+    ("broadcast_to shape kw", "lambda anp, x: anp.broadcast_to(x, shape=(2, 2, 3))", [((1, 3), "R")], (0,)),
+    ("full fill scalar", "lambda anp, x: anp.full((2, 2), x)", [((), "R")], (0,)),
+]
 VALS = [0.5, -1.25, 2.0, 0.75, -0.5, 1.5, 3.0, -2.25, 0.25, 1.0, -0.75, 2.5, 1.75, -1.5, 0.625, 2.25, -0.375, 1.125]
 
 
@@ -348,6 +515,8 @@ def run_one(case):
                 errj = float(onp.max(onp.abs(tg.ravel() - (expj if cplx_out else expj.real)))) if tg.shape == y0.shape and n_out else 0.0
                 okj = tg.shape == y0.shape and errj <= TOL * (1 + float(onp.max(onp.abs(expj))) if n_out else 1.0)
                 out.append((f"{label}|arg{a}", "N-jvp", okj, f"max |jvp - J t| = {errj:.2e}, shape {tg.shape} vs {y0.shape}"))
+                out.append((f"{label}|arg{a}", "N-jvp-space", tg.shape == y0.shape and bool(onp.iscomplexobj(tg)) == bool(cplx_out),
+                            f"forward-mode tangent has shape {tg.shape} dtype {tg.dtype}; the output has shape {y0.shape} dtype {onp.asarray(y0).dtype}"))
             except Exception as e:
                 out.append((f"{label}|arg{a}", "N-jvp-raises", True, f"{type(e).__name__}: {str(e)[:80]}"))
     except Exception as e:
@@ -410,7 +579,102 @@ def run_scale(rep):
             rep.note(f"N-scale {label}: {type(e).__name__}: {e}")
 
 
+def run_accum(rep):
+    """Accumulation of several cotangent contributions to ONE value (dense and indexed/sparse, in every order) must be exact, also when a contribution is the incoming
+    cotangent itself handed on unchanged (identity / reshape / take paths).  The maps are
+    LINEAR (C-linear), so the exact answer is J^T g with J assembled from plain-NumPy evaluations on basis vectors."""
+    warnings.simplefilter("ignore")
+    import autograd.numpy as anp
+    from autograd.core import make_vjp
+    idx = [3, 3, 0, 1]
+    uses = {"D": lambda x, c: c * x, "S": lambda x, c: c * x[idx], "V": lambda x, c: c * x[::-1], "T": lambda x, c: c * anp.take(x, [1, 1, 2, 0]),
+            "I": lambda x, c: x, "R": lambda x, c: anp.reshape(x, (2, 2)).ravel(), "P": lambda x, c: x[idx]}   # I/R/P hand the cotangent on UNCHANGED (no widening product)
+    values = {"float64": onp.array([0.5, -1.5, 2.0, 4.0]), "complex128": onp.array([1.0 + 2.0j, -0.5j, 3.0 + 0.0j, 0.25 - 1.0j])}
+    # cotangents are elements of the OUTPUT's vector space (same dtype as the value here).  A seed of a narrower dtype (int / bool / real-for-complex) is
+    # outside the property's domain: on the unchanged tree the order dense, dense, sparse already truncates it (int + int stays int, then add.at).
+    cots = {"float64": [("float64", onp.array([1.0, 0.5, 2.0, -1.0])), ("float64 one-hot", onp.array([0.0, 1.0, 0.0, 0.0]))],
+            "complex128": [("complex128", onp.array([1.0 + 1.0j, 2.0, 3.0 - 0.5j, -1.0])), ("complex128 real-valued", onp.array([1.0, 2.0, 3.0, -1.0]) + 0.0j)]}
+    for vk, x0 in values.items():
+        cs = [0.5, 0.25, 2.0] if vk == "float64" else [0.5, 1.0j, 2.0 - 0.5j]
+        for order in ("DS", "SD", "DDS", "SSD", "DSD", "VS", "SV", "DT", "TD", "DVS", "IS", "SI", "IIS", "ISI", "IP", "PI", "RS", "SR", "IPS", "PPI", "IRP"):
+            f = lambda x, order=order: sum((uses[u](x, cs[i]) for i, u in enumerate(order)), 0 * x) if order[0] not in "IRP" else sum((uses[u](x, cs[i]) for i, u in enumerate(order[1:], 1)), uses[order[0]](x, cs[0]))
+            n = x0.size
+            J = onp.stack([onp.asarray(f(onp.eye(n, dtype=x0.dtype)[i])) for i in range(n)], axis=1)   # plain NumPy, f linear
+            try:
+                vjp, _ = make_vjp(f, x0)
+            except Exception as e:
+                rep.note(f"N-accum {vk} {order}: forward raised {type(e).__name__}")
+                continue
+            for ck, g in cots[vk]:
+                lab = f"accum[{order}]|value {vk}|cotangent {ck}"
+                rep.bounded_case((lab, "N-accum"))
+                try:
+                    got = onp.asarray(vjp(g))
+                    exp = J.T @ g
+                    ok = got.shape == x0.shape and onp.allclose(got, exp, rtol=1e-12, atol=1e-12) and (vk != "float64" or not onp.iscomplexobj(got))
+                    det = f"vjp(g) = {got.tolist()} (dtype {got.dtype}); exact J^T g = {exp.tolist()}"
+                except Exception as e:   # a loud failure is the property's 'or raises'
+                    rep.note(f"N-accum {lab}: raised {type(e).__name__}: {str(e)[:60]}") if len(rep.notes) < 60 else None
+                    continue
+                if not ok:
+                    rep.violation("NUM:N-accum", lab, f"{lab}: {det}", replay=dict(module="contracts.rules_numeric", accum=lab), witness=True)
+
+
+def run_zero_cotangent(rep):
+    """Second order at points where a first-order cotangent is exactly ZERO (but not identically zero): rules that branch on the VALUE of the
+    cotangent (`if anp.any(g)`) prune a term whose derivative does not vanish.  f(A) = sum((v(A) - V0)^2) with V0 = v(A0): the gradient at A0 is 0, the
+    Hessian is not; reverse-over-reverse must agree with central differences of autograd's own gradient."""
+    warnings.simplefilter("ignore")
+    import autograd.numpy as anp
+    from autograd.core import make_vjp
+    A0 = onp.array([[2.0, 0.5, -0.25], [0.5, -1.0, 0.75], [-0.25, 0.75, 0.5]])
+    progs = {
+        "eigh vectors": (lambda A, V0: anp.sum((anp.linalg.eigh(A)[1] - V0) ** 2), lambda A: onp.linalg.eigh(A)[1]),
+        "eigh values": (lambda A, V0: anp.sum((anp.linalg.eigh(A)[0] - V0) ** 2), lambda A: onp.linalg.eigh(A)[0]),
+        "svd vectors": (lambda A, V0: anp.sum((anp.linalg.svd(A)[0] - V0) ** 2), lambda A: onp.linalg.svd(A)[0]),
+        "qr Q": (lambda A, V0: anp.sum((anp.linalg.qr(A)[0] - V0) ** 2), lambda A: onp.linalg.qr(A)[0]),
+        "sort": (lambda A, V0: anp.sum((anp.sort(anp.ravel(A)) - V0) ** 2), lambda A: onp.sort(onp.ravel(A))),
+        "max": (lambda A, V0: (anp.max(A) - V0) ** 2, lambda A: onp.max(A)),
+    }
+    sym = lambda B: onp.tril(B) + onp.tril(B, -1).T    # eigh reads the lower triangle
+    for lab, (f, plain) in progs.items():
+        try:
+            V0 = plain(A0)
+            grad_at = lambda A: onp.asarray(make_vjp(lambda Z: f(Z, V0), A)[0](1.0), dtype=float)
+            n = A0.size
+            hh = 1e-5
+            Hnum = onp.zeros((n, n))
+            Hrr = onp.zeros((n, n))
+            for i in range(n):
+                e = onp.zeros(n)
+                e[i] = 1
+                e = e.reshape(A0.shape)
+                Hnum[:, i] = ((grad_at(A0 + hh * e) - grad_at(A0 - hh * e)) / (2 * hh)).ravel()
+                Hrr[:, i] = onp.asarray(make_vjp(lambda Z: anp.sum(make_vjp(lambda Y: f(Y, V0), Z)[0](1.0) * e), A0)[0](1.0), dtype=float).ravel()
+            err, sc = float(onp.max(onp.abs(Hrr - Hnum))), 1 + float(onp.max(onp.abs(Hnum)))
+            rep.bounded_case(("N-hess0", lab))
+            if not err <= 2e-4 * sc:
+                rep.violation("NUM:N-hess0", lab, f"{lab}: gradient at A0 is {float(onp.max(onp.abs(grad_at(A0)))):.1e} (zero cotangent into the rule); |H_rev-rev - H_fd| = {err:.2e} (scale {sc:.2f}), "
+                              f"max |H_rev-rev| = {float(onp.max(onp.abs(Hrr))):.2e}", replay=dict(module="contracts.rules_numeric", hess0=lab), witness=True)
+        except Exception as e:
+            rep.note(f"N-hess0 {lab}: {type(e).__name__}: {str(e)[:80]}")
+
+
 def replay(spec):
+    if "hess0" in spec:
+        from vlib.common import Report
+        r = Report("replay", "quick", "other", "replay")
+        r.known = {"findings": []}
+        run_zero_cotangent(r)
+        bad = [v for v in r.violations if v["case"] == spec["hess0"]]
+        return (not bad), (bad[0]["what"] if bad else "holds"), "central differences of autograd's own first-order gradient"
+    if "accum" in spec:
+        from vlib.common import Report
+        r = Report("replay", "quick", "other", "replay")
+        r.known = {"findings": []}
+        run_accum(r)
+        bad = [v for v in r.violations if v["case"] == spec["accum"]]
+        return (not bad), (bad[0]["what"] if bad else "holds"), "J^T g for the linear map, J from plain NumPy on basis vectors"
     if "scale_label" in spec:
         from vlib.common import Report
         r = Report("replay", "quick", "other", "replay")
